@@ -4,20 +4,31 @@ import re
 
 _counter = [0]
 
-# patterns in the model's language: alternation of literals, each optionally anchored with ^
+from . import relib
+
+# patterns in the model's language (coq/Py/PyRe.v): either the legacy form -- an alternation of literals, each optionally
+# anchored with ^ -- or a regular-expression node of harness/relib.py
 PATTERN_POOL = [[[True, "BEGIN"]], [[False, "GIN X"]], [[False, "B"]], [[True, "B"]], [[False, "END"], [False, "STOP"]],
                 [[True, "END"]], [[False, "X"]], [[False, "E"]], [[True, "#"]], [[False, "--"]], [[False, ""]],
                 # literals that include the line terminator: the patterns see the line as it stands in the file
-                [[False, "END\n"]], [[False, "B\n"]], [[True, "\n"]]]
+                [[False, "END\n"]], [[False, "B\n"]], [[True, "\n"]],
+                # regular expressions proper: blanks before an anchored keyword, keyword + number, anchors at both ends,
+                # classes, repetition, optional parts, a line that is exactly a keyword, a blank line, any non-blank line
+                ["seq", ["bol"], ["seq", ["star", ["s", False]], ["lit", "BEGIN"]]],
+                ["seq", ["lit", "data"], ["seq", ["star", ["s", False]], ["plus", ["d", False]]]],
+                ["seq", ["lit", "END"], ["eol"]], ["seq", ["bol"], ["seq", ["lit", "END"], ["eol"]]],
+                ["seq", ["bol"], ["cls", False, [[65, 90]]]], ["seq", ["cls", False, [[66, 69]]], ["cls", True, [[65, 90], [10, 10]]]],
+                ["seq", ["bol"], ["seq", ["opt", ["lit", "X"]], ["lit", "END"]]], ["seq", ["bol"], ["seq", ["star", ["s", False]], ["eol"]]],
+                ["seq", ["bol"], ["s", True]], ["alt", ["seq", ["bol"], ["lit", "#"]], ["seq", ["lit", "-"], ["rep", ["lit", "-"], 1, 3]]],
+                ["seq", ["lit", "B"], ["seq", ["star", ["any"]], ["lit", "X"]]], ["seq", ["any"], ["seq", ["any"], ["eol"]]]]
 
 
 def regex_of(pat, binary=False):
-    s = "|".join(("^" if a else "") + re.escape(l) for a, l in pat)
-    return s.encode("latin-1") if binary else s
+    return relib.regex_of(pat, binary)
 
 
-def pattern_sx(pat):
-    return [[a, l] for a, l in pat]
+def pattern_sx(pat, binary=False):
+    return relib.pattern_sx(pat, binary)
 
 
 def mk_block_class(bd, idx, binary=False, base=None):
@@ -27,9 +38,15 @@ def mk_block_class(bd, idx, binary=False, base=None):
     # what read() returns: the reading driver must not depend on it ("t" True, "h" honest: False when the content ended before
     # the end marker, "n" None); chosen per class from the definition, deterministically
     ret = bd.get("ret", "tthn"[(len(str(bd.get("begin"))) + len(str(bd.get("end")))) % 4])
+    # where the block keeps what it read: a fresh list assigned by read(), or ("init") a list that the constructor
+    # allocates and read() only appends to
+    init = bd.get("store") == "init"
+
+    def __init__(self, previous=None, next=None, data=None):
+        (base or Block).__init__(self, previous, next, [] if (init and data is None) else data)
 
     def read(self, file, *args, **kwargs):
-        chunks = []
+        chunks = self.data if (init and isinstance(self.data, list)) else []
         complete = False
         if binary:
             b = file.read(1)
@@ -52,7 +69,8 @@ def mk_block_class(bd, idx, binary=False, base=None):
                 if self.ends(l):
                     complete = True
                     break
-        self.data = chunks
+        if self.data is not chunks:
+            self.data = chunks
         return True if ret == "t" else (None if ret == "n" else complete)
 
     def write(self, file, *args, **kwargs):
@@ -63,7 +81,7 @@ def mk_block_class(bd, idx, binary=False, base=None):
     def __eq__(self, o):
         return isinstance(o, self.__class__) and o.data == self.data
 
-    ns = {"BEGIN_PATTERN": regex_of(bd["begin"], binary), "END_PATTERN": regex_of(bd["end"], binary), "read": read, "write": write,
+    ns = {"BEGIN_PATTERN": regex_of(bd["begin"], binary), "END_PATTERN": regex_of(bd["end"], binary), "__init__": __init__, "read": read, "write": write,
           "__eq__": __eq__, "__hash__": None, "__slots__": [], "_verif_idx": idx}
     return type("VBlock%d_%d" % (idx, _counter[0]), (base or Block,), ns)
 
@@ -97,9 +115,14 @@ def mk_section_class(sd, idx):
     # where the section keeps what it read: in the framework's `data` attribute, or in an attribute of its own (`data` stays
     # None -- the framework must not decide anything from `data`)
     own = len(sd) > 3 and sd[3] == "own"
+    # ... or in a list that the constructor allocates and read() only appends to (no object of the class may share it)
+    init = len(sd) > 3 and sd[3] == "init"
+
+    def __init__(self, previous=None, next=None, data=None):
+        Section.__init__(self, previous, next, [] if (init and data is None) else data)
 
     def read(self, file, *args, **kwargs):
-        lines = []
+        lines = self.data if init else []
         complete = True
         if kind == "lines":
             for _ in range(arg):
@@ -121,7 +144,7 @@ def mk_section_class(sd, idx):
                     break
         if own:
             self._own = lines
-        else:
+        elif not init:
             self.data = lines
         return True if ret == "t" else (None if ret == "n" else complete)
 
@@ -133,7 +156,8 @@ def mk_section_class(sd, idx):
     def __eq__(self, o):
         return isinstance(o, self.__class__) and (o._own == self._own if own else o.data == self.data)
 
-    ns = {"read": read, "write": write, "__eq__": __eq__, "__hash__": None, "__slots__": ["_own"] if own else [], "_verif_idx": idx}
+    ns = {"__init__": __init__, "read": read, "write": write, "__eq__": __eq__, "__hash__": None, "__slots__": ["_own"] if own else [],
+          "_verif_idx": idx}
     return type("VSection%d_%d" % (idx, _counter[0]), (Section,), ns)
 
 
